@@ -78,29 +78,20 @@ def plan_e_histories(case: dict, ref: dict) -> list[list[dict]]:
     """Fault and crash points stratified over the mutation events of the reference run."""
     sigma = case["params"]["sigma"]
     r = rng(case["case_seed"], "plan")
-    evs = [e for e in ref.get("event_log", []) if e.get("op") in ERROR_KINDS]
+    strata = engine.fault_strata(ref.get("event_log", []))
     hs: list[list[dict]] = [[{"sigma": sigma}, {"sigma": sigma}]]
-    if not evs:
+    if not strata:
         return hs
-    by_op: dict[str, list] = {}
-    for e in evs:
-        by_op.setdefault(e["op"], []).append(e)
-
-    def pick_event() -> dict:
-        op = r.choice(sorted(by_op))
-        lst = by_op[op]
-        # bias towards stub files and towards the last events of a kind (placeholder appends come last)
-        stubs = [e for e in lst if str(e.get("path", "")).endswith(".sdsstub")]
-        pool = stubs if stubs and r.random() < 0.6 else lst
-        return pool[-1] if r.random() < 0.2 else r.choice(pool)
-
-    e = pick_event()
-    kind = r.choice(ERROR_KINDS[e["op"]])
-    hs.append([{"sigma": sigma, "faults": [{"sel": {"event": e["seq"]}, "kind": kind}]}, {"sigma": sigma}])
+    e = engine.pick_fault_event(r, strata)
+    if e is not None:
+        kind = r.choice(ERROR_KINDS[e["op"]])
+        hs.append([{"sigma": sigma, "faults": [{"sel": engine.selector_for(e), "kind": kind}]}, {"sigma": sigma}])
     for _ in range(case["params"].get("n_crash", 1)):
-        e = pick_event()
+        e = engine.pick_fault_event(r, strata)
+        if e is None:
+            continue
         kind = "torn_crash" if e["op"] == "write" and r.random() < 0.5 else "crash"
-        hs.append([{"sigma": sigma, "faults": [{"sel": {"event": e["seq"]}, "kind": kind}]}, {"sigma": sigma}])
+        hs.append([{"sigma": sigma, "faults": [{"sel": engine.selector_for(e), "kind": kind}]}, {"sigma": sigma}])
     return hs
 
 
@@ -354,7 +345,7 @@ def coverage(cases: list[dict], verdicts: list[dict], tier: str, wall: float) ->
         samples.append({
             "case_seed": c["case_seed"], "package": c["pkg"].get("name"), "features": c["pkg"].get("features"), "options": c["options"],
             "component_ops": [f"{o['op']}({'nc' if o.get('flag') else 'py'},{o.get('model', 'live')})" for o in c["histories"][0][0]["job_extra"]["ops"]],
-            "run_histories": [[("RUN" + (f"[{s['faults'][0]['kind']}@event{s['faults'][0]['sel'].get('event')}]" if s.get("faults") else "")) for s in h] for h in c["histories"][1:]],
+            "run_histories": [[("RUN" + (f"[{s['faults'][0]['kind']}@{s['faults'][0]['sel']}]" if s.get("faults") else "")) for s in h] for h in c["histories"][1:]],
         })
     return {
         "evaluations": tot["runs"] + tot["ops"],
